@@ -690,6 +690,57 @@ func c03KindAt(ops []string, i int) string {
 	return kinds[cur]
 }
 
+// c03RaceShape classifies a history by what can remove a member from the cache between the moment the
+// read-ahead worker Peeks it (and skips it) and the moment the consumer Gets it:
+//
+//	"setcache": the history replaces or detaches a cache after one was attached (SetCache while reading ahead);
+//	"evicting": no such switch, but a cache with fewer slots than the file has members is attached (a Put can evict);
+//	"reseek":   neither, but at least two Seeks follow the attachment: a Seek served from the cache redirects the
+//	            worker while decompressors with blocks for the old position are still in flight; nothing is taken
+//	            away from the cache, but the stale blocks can outnumber the cap(working) mismatches nextBlock
+//	            tolerates (the second mechanism of the recorded finding; needs no eviction);
+//	"stable":   none of these — every member fits, the cache is attached once and at most one Seek follows:
+//	            neither mechanism of the recorded finding applies, a failure here is a different defect.
+func c03RaceShape(cs c03Case) string {
+	attached, switched, small := false, false, false
+	seeks := 0
+	members := len(cs.Payloads)
+	if cs.Marker {
+		members++
+	}
+	for _, op := range cs.Ops {
+		if op != "" && op[0] == 's' && attached {
+			seeks++
+		}
+		if op == "" || op[0] != 'c' {
+			continue
+		}
+		if attached {
+			switched = true
+		}
+		if op == "c-" {
+			continue
+		}
+		attached = true
+		if op[1] != '=' {
+			if f := strings.Split(op[1:], ","); len(f) == 2 {
+				if n, err := strconv.Atoi(f[1]); err == nil && n < members {
+					small = true
+				}
+			}
+		}
+	}
+	switch {
+	case switched:
+		return "setcache"
+	case small:
+		return "evicting"
+	case seeks >= 2:
+		return "reseek"
+	}
+	return "stable"
+}
+
 // judge compares cached with uncached (oracle) and queues the model line (rd = 1).
 func (x *c03Ctx) judge(cs c03Case, ans c03Answer, status, msg, frame string, model bool) (failed bool) {
 	res := x.res
@@ -722,12 +773,23 @@ func (x *c03Ctx) judge(cs c03Case, ans c03Answer, status, msg, frame string, mod
 			fmt.Sprintf("%s cache, rd=%d: after a Seek that was served from the cache, reading on past the end of that block: %s %s%s (%s)", kind, cs.Rd, status, msg, ans.Panic, frame), cs)
 		return true
 	}
+	// rd>1: the signature names what in the history can take a member away from under the read-ahead worker
+	// (c03RaceShape) and what exactly went wrong, so that a recorded finding covers that race only.
+	if cs.Rd > 1 {
+		rdc += "." + c03RaceShape(cs)
+	}
 	switch status {
 	case "hang":
 		res.fail("c03."+rdc+".hang:"+frame, fmt.Sprintf("%s cache, rd=%d: %s", kind, cs.Rd, msg), cs)
 		return true
 	case "crash":
-		res.fail("c03."+rdc+".crash:"+frame, fmt.Sprintf("%s cache, rd=%d: %s", kind, cs.Rd, msg), cs)
+		what := "crash"
+		if strings.Contains(msg, "bgzf: unexpected block") {
+			what = "unexpected-block"
+		} else if strings.Contains(msg, "all goroutines are asleep") {
+			what = "hang" // the dead-lock, noticed by the runtime before the time limit
+		}
+		res.fail("c03."+rdc+"."+what+":"+frame, fmt.Sprintf("%s cache, rd=%d: %s", kind, cs.Rd, msg), cs)
 		return true
 	}
 	if ans.Err != "" {
@@ -735,7 +797,11 @@ func (x *c03Ctx) judge(cs c03Case, ans c03Answer, status, msg, frame string, mod
 		return false
 	}
 	if ans.Panic != "" {
-		res.fail("c03."+rdc+".panic:"+ans.PanicAt, fmt.Sprintf("%s cache, rd=%d: %s", kind, cs.Rd, ans.Panic), cs)
+		what := "panic"
+		if strings.Contains(ans.Panic, "bgzf: unexpected block") {
+			what = "unexpected-block"
+		}
+		res.fail("c03."+rdc+"."+what+":"+ans.PanicAt, fmt.Sprintf("%s cache, rd=%d: %s", kind, cs.Rd, ans.Panic), cs)
 		return true
 	}
 	for i := range ans.Uncached {
